@@ -1,10 +1,12 @@
 pub mod cover;
+pub mod engine;
 pub mod gen;
 pub mod graph;
 pub mod judge;
 pub mod prep;
 pub mod reference;
 pub mod run;
+pub mod set;
 pub mod spec;
 
 use serde::{Deserialize, Serialize};
